@@ -153,6 +153,25 @@ func updateConnContext(ctx context.Context, c net.Conn) context.Context {
 	return ctx
 }
 
+// net/http fills Request.TLS only for connections of type *tls.Conn. HTTP/1.1
+// connections reach it wrapped in hack.TLSClientHelloConn, so requests on them
+// looked like plain HTTP (e.g. "X-Forwarded-Proto: http"). Restore Request.TLS
+// from the connection state recorded in the metadata.
+func withConnectionState(next http.Handler) http.Handler {
+	if next == nil {
+		next = http.DefaultServeMux
+	}
+	return http.HandlerFunc(func(w http.ResponseWriter, r *http.Request) {
+		if r.TLS == nil {
+			if md, ok := metadata.FromContext(r.Context()); ok {
+				cs := md.ConnectionState
+				r.TLS = &cs
+			}
+		}
+		next.ServeHTTP(w, r)
+	})
+}
+
 func (server *Server) serveHTTP1() {
 	err := server.HTTPServer.Serve(server.http1ConnChannelListener)
 
@@ -193,6 +212,7 @@ func (server *Server) setupServe() {
 
 	// start HTTP/1.1 server
 	if server.http1ConnChannelListener == nil {
+		server.HTTPServer.Handler = withConnectionState(server.HTTPServer.Handler)
 		server.http1ConnChannelListener = hack.NewChannelListener(server.ctx)
 		go server.serveHTTP1()
 	}
